@@ -225,6 +225,32 @@ func (p c07) checkText(unit int, rc Recipe, st State, text string, only int, rep
 		}
 		truncated := len(cands.List) >= 100
 		switch cls.Kind {
+		case "dyn-label":
+			// the label of a dynamic block: exactly the block types the synthesised dynamic
+			// block is registered for in this body, with the typed prefix
+			lr := cls.Block.LabelRanges[0]
+			if off <= lr.Start.Byte || src[lr.Start.Byte] != '"' {
+				continue
+			}
+			prefix := string(src[lr.Start.Byte+1 : off])
+			if strings.ContainsAny(prefix, "\"\n\\$%") {
+				continue
+			}
+			var want []string
+			for t := range cls.Eff.DynTypes {
+				if strings.HasPrefix(t, prefix) {
+					want = append(want, t)
+				}
+			}
+			sort.Strings(want)
+			rep.Count("dynamic_label_cursors", 1)
+			if !truncated && strings.Join(got, ",") != strings.Join(want, ",") {
+				viol(fmt.Sprintf("DYNAMIC-LABEL-CANDIDATES %s", listDiffClass(got, want, nil)), fmt.Sprintf("label of a dynamic block with typed prefix %q: candidates differ from the block types of the enclosing body's effective schema", prefix), strings.Join(want, ", "))
+			}
+			if len(want) > 0 {
+				rep.NonTrivial(fmt.Sprintf("%s|dynamic-label|%d", rc, len(prefix)))
+			}
+			continue
 		case "label":
 			prefixStart := cls.Block.LabelRanges[cls.Label].Start.Byte + 1 // after the quote
 			if off < prefixStart {
